@@ -186,7 +186,7 @@ impl<'a> Run<'a> {
         self.model.get(&key).and_then(|e| e.expiry).map(|e| e == self.now() as u128).unwrap_or(false)
     }
 
-    fn model_total(&self) -> i64 { self.model.values().map(|e| e.weight).sum() }
+    fn model_total(&self) -> i128 { self.model.values().map(|e| e.weight as i128).sum() }
 
     fn fresh_token(&mut self, key: u64) -> u64 { self.token_counter += 1; token(key, 1, self.token_counter) }
 
@@ -254,7 +254,7 @@ impl<'a> Run<'a> {
                         let panicked = self.sut.background_panics().contains(&Role::Worker);
                         let site = rt::panics_since(self.panic_mark).last().map(rt::panic_site).unwrap_or_else(|| "no-panic".into());
                         let why = rt::panics_since(self.panic_mark).last().map(|p| format!("{}:{}: {}", p.file, p.line, p.message)).unwrap_or_default();
-                        self.fail(&["C17", "C12"], format!("C17/worker-dead/{}/panicked={}", site, panicked),
+                        self.fail(&["C17", "C12"], format!("C17/worker-dead/{}/cmd={}/panicked={}", site, rt::last_command_kind(), panicked),
                                   format!("the command worker terminated while executing {} (key state {}): {}; its acknowledgement never completes", op.shape(), state.name(), why));
                         None
                     }
@@ -511,7 +511,7 @@ impl<'a> Run<'a> {
                 self.fail(&["C05"], "C05/api-total-differs-from-snapshot".into(), "total_weight_used() disagrees with the snapshot".into());
                 return;
             }
-            if snapshot.weight_used != self.model_total() && !self.cfg.lenient_weights {
+            if snapshot.weight_used as i128 != self.model_total() && !self.cfg.lenient_weights {
                 self.fail(&["C05", "C08"], "C05/total-differs-from-model".into(), format!("total weight used {} but the model holds {} ({})", snapshot.weight_used, self.model_total(), context));
                 return;
             }
@@ -656,7 +656,7 @@ impl<'a> Run<'a> {
                 self.admission_rejects += 1;
                 if weight > max {
                     self.fail(&["C06"], "C06/overweight-key-not-rejected-as-overweight".into(), format!("{} with weight {} > cache weight {} was rejected with the wrong reason", verb, weight, max));
-                } else if !self.cfg.pressure || (!self.noise_on && self.model_total() + weight <= max) {
+                } else if !self.cfg.pressure || (!self.noise_on && self.model_total() + weight as i128 <= max as i128) {
                     self.fail(&["C06", "C03"], "C06/rejected-although-it-fits".into(),
                               format!("{} with weight {} was rejected for lack of space although {} of {} are used", verb, weight, self.model_total(), max));
                 } else { self.crit("admission-rejected"); }
@@ -727,7 +727,7 @@ impl<'a> Run<'a> {
                     let has_ttl = entry.expiry.is_some();
                     if let Some(weight) = weight { entry.weight = *weight; }
                     else if let Some(value) = value { entry.weight = computed_weight(mode, *value, ttl.is_some()); }
-                    else if !had_ttl && has_ttl { entry.weight += TTL_ENTRY; }
+                    else if !had_ttl && has_ttl { entry.weight = entry.weight.saturating_add(TTL_ENTRY); }
                     else if had_ttl && !has_ttl { entry.weight -= TTL_ENTRY; }
                 } else {
                     self.crit(&format!("upsert:{}:{}", op.shape(), state.name()));
@@ -937,18 +937,18 @@ impl<'a> Run<'a> {
     fn gen_weight(&mut self, key: u64) -> i64 {
         let max = self.cfg.sut.max_weight;
         if self.cfg.boundary_args && self.rng.chance(1, 6) {
-            return *self.rng.pick(&[1, 24, 25, max, max + 1, i64::MAX, i64::MAX / 2, max - 1]).max(&1);
+            return *self.rng.pick(&[1, 24, 25, max, max.saturating_add(1), i64::MAX, i64::MAX / 2, max - 1, i64::MAX - 5, i64::MAX / 2 + 1, max / 2 + 1]).max(&1);
         }
         if self.cfg.pressure {
-            let free = (max - self.model_total()).max(1);
+            let free = (max as i128 - self.model_total()).clamp(1, i64::MAX as i128) as i64;
             let roll = self.rng.below(10);
             return match roll {
                 0 => 1,
                 1 => free,
-                2 => free + 1,
+                2 => free.saturating_add(1),
                 3 => (free - 1).max(1),
                 4 => max,
-                5 => max + 1,
+                5 => max.saturating_add(1),
                 6 => (max - 1).max(1),
                 _ => self.rng.range(1, (max as u64 / 2).max(1)) as i64,
             };
@@ -987,12 +987,12 @@ impl<'a> Run<'a> {
                 let has_ttl = if remove_ttl { false } else if with_ttl { true } else { had_ttl };
                 let new_weight = if let Some(weight) = weight { weight }
                     else if let Some(value) = value { computed_weight(mode, value, with_ttl) }
-                    else if !had_ttl && has_ttl { entry.weight + TTL_ENTRY }
+                    else if !had_ttl && has_ttl { entry.weight.saturating_add(TTL_ENTRY) }
                     else if had_ttl && !has_ttl { entry.weight - TTL_ENTRY }
                     else { entry.weight };
                 if new_weight <= 0 && !self.cfg.allow.remove_ttl_small_weight { continue; }
-                let others: i64 = self.model_total() - entry.weight;
-                let fits = new_weight <= self.cfg.sut.max_weight - others;
+                let others: i128 = self.model_total() - entry.weight as i128;
+                let fits = new_weight as i128 <= self.cfg.sut.max_weight as i128 - others;
                 if !fits && !self.cfg.allow.overweight_update { continue; }
                 if !self.cfg.pressure && new_weight > self.key_cap(key) + TTL_ENTRY && !self.cfg.allow.overweight_update { continue; }
             } else if !self.cfg.pressure {
@@ -1195,6 +1195,7 @@ pub fn run_history(cfg: &SeqCfg) -> SeqOut {
     r.clear_acked();
     sched().quiet();
     sched().release_all();
+    rt::clear_abort();
     let sut = Sut::new(cfg.sut.clone());
     let mut run = Run {
         cfg, sut, model: BTreeMap::new(), rng: rt::rng_for(cfg.seed, cfg.index, 0x5EC), findings: Vec::new(), counts: Counts::default(),
